@@ -17,11 +17,18 @@ import (
 
 	"cell2verif/hx"
 
+	"github.com/asynkron/protoactor-go/actor"
+	"github.com/asynkron/protoactor-go/remote"
+	as "github.com/dfklegend/cell2/actorex/service"
+	messages "github.com/dfklegend/cell2/actorex/service/servicemsgs"
+	"github.com/dfklegend/cell2/node/app"
+	"github.com/dfklegend/cell2/node/cluster"
 	"github.com/dfklegend/cell2/node/service"
 	"github.com/dfklegend/cell2/utils/common"
 	"github.com/dfklegend/cell2/utils/logger"
 	"github.com/dfklegend/cell2/utils/runservice"
 
+	mymsg "mmo/messages"
 	"mmo/servers/scenem"
 )
 
@@ -38,8 +45,61 @@ func svcShow(name string) string {
 	return "?" + strings.ReplaceAll(name, " ", "_")
 }
 
+// sentReq is one `scene.remote.allocscene` request SpawnScene sent and nobody answered yet.
+type sentReq struct {
+	reqId int32
+	sid   uint64
+	cfg   int32
+	svc   string
+}
+
 type env struct {
-	mgr *scenem.SceneServiceMgr
+	mgr  *scenem.SceneServiceMgr
+	ns   *service.NodeService
+	self *actor.PID
+	sent []sentReq
+}
+
+// stubCtx stands in for the actor context of the manager's NodeService: the
+// service is not spawned as an actor; its Receive is called directly with the
+// message to deliver, and what it sends is recorded.  Only Self/Send/Message
+// are used by the exercised paths (anything else would nil-panic -> "panic").
+type stubCtx struct {
+	actor.Context
+	e   *env
+	msg interface{}
+}
+
+func (c *stubCtx) Self() *actor.PID      { return c.e.self }
+func (c *stubCtx) Message() interface{} { return c.msg }
+func (c *stubCtx) Send(pid *actor.PID, m interface{}) {
+	req, ok := m.(*messages.ServiceRequest)
+	if !ok {
+		return
+	}
+	r := sentReq{reqId: req.ReqId, svc: pid.Id}
+	if body, err := remote.Deserialize(req.Body, req.Type, as.DefaultSerializeId); err == nil {
+		if a, ok := body.(*mymsg.SAllocScene); ok && req.Route == "remote.allocscene" {
+			r.sid, r.cfg = a.SceneId, a.CfgId
+			c.e.sent = append(c.e.sent, r)
+			return
+		}
+	}
+	r.svc = "?unexpected-request:" + req.Route
+	c.e.sent = append(c.e.sent, r)
+}
+
+// setRoutable publishes a cluster view in which exactly the given scene services exist.
+func setRoutable(ks []int) {
+	var names []string
+	for _, k := range ks {
+		names = append(names, "scene."+svcName(k))
+	}
+	if len(names) == 0 {
+		app.Node.GetCluster().UpdateClusterTopology([]*cluster.Member{})
+		return
+	}
+	app.Node.GetCluster().UpdateClusterTopology([]*cluster.Member{{Id: "c@n1", Host: "h", Port: 1, State: 1, Services: names}})
 }
 
 var cur *env
@@ -52,7 +112,11 @@ func newEnv() *env {
 	ns.SetRunService(runservice.NewStandardRunService("c19"))
 	m := scenem.NewMgr(ns)
 	m.Start()
-	return &env{mgr: m}
+	e := &env{mgr: m, ns: ns, self: actor.NewPID("h:9", "scenem-1")}
+	// what actor.Started does for a spawned service: remember the context
+	ns.Receive(&stubCtx{e: e, msg: &actor.Started{}})
+	setRoutable(nil)
+	return e
 }
 
 func showScene(s scenem.VScene) string {
@@ -103,6 +167,17 @@ func (e *env) dump() string {
 			sb.WriteByte(',')
 		}
 		fmt.Fprintf(&sb, "%s:%d:%d:%d:%d", svcShow(s.Name), hx.B2i(s.Working), s.N, s.Failed, now-s.Last)
+	}
+	// allocation requests SpawnScene sent and that are still unanswered (in send order)
+	sb.WriteString(" P=")
+	for i, r := range e.sent {
+		if i > 0 {
+			sb.WriteByte(',')
+		}
+		fmt.Fprintf(&sb, "%d:%d:%s", r.sid, r.cfg, svcShow(r.svc))
+	}
+	if len(e.ns.Handlers) != len(e.sent) {
+		fmt.Fprintf(&sb, "!handlers=%d", len(e.ns.Handlers))
 	}
 	return sb.String()
 }
@@ -156,6 +231,47 @@ func exec(op string) string {
 			} else {
 				r = showScene(scenem.VScene{SceneId: o.SceneId, CfgId: o.CfgId, LineId: o.LineId, ServiceId: o.ServiceId})
 			}
+		case "route":
+			var ks []int
+			v, _ := hx.KV(ws, "svcs")
+			for _, f := range strings.Split(v, ",") {
+				if k, err := strconv.Atoi(f); err == nil {
+					ks = append(ks, k)
+				}
+			}
+			setRoutable(ks)
+		case "spawn":
+			// the real SpawnScene: AllocScene + app.Request("scene.remote.allocscene") + callback
+			before := len(e.sent)
+			cfg := int32(hx.KVInt(ws, "cfg"))
+			if !e.mgr.SpawnScene(cfg) {
+				r = "false"
+			} else if len(e.sent) == before+1 {
+				q := e.sent[before]
+				r = fmt.Sprintf("%d:%s:sent", q.sid, svcShow(q.svc))
+				if q.cfg != cfg {
+					r += "!cfg"
+				}
+			} else {
+				// nothing was sent: the request failed at once (no such service in the cluster view)
+				r = "noroute"
+			}
+		case "reply":
+			// the scene service's answer to an allocation request (ok / error) reaches the manager
+			sid := hx.KVU64(ws, "sid")
+			r = "unknown"
+			for i, q := range e.sent {
+				if q.sid == sid {
+					e.sent = append(e.sent[:i:i], e.sent[i+1:]...)
+					res := &messages.ServiceResponse{ReqId: q.reqId}
+					if v, _ := hx.KV(ws, "res"); v != "ok" {
+						res.ErrCode, res.ErrInfo = 1, "alloc failed"
+					}
+					e.ns.Receive(&stubCtx{e: e, msg: res})
+					r = "done"
+					break
+				}
+			}
 		case "weight":
 			switch scenem.VWeightCmp(hx.KVInt(ws, "a"), hx.KVInt(ws, "b")) {
 			case -1:
@@ -186,6 +302,19 @@ type gen struct {
 	ended   []uint64
 	pending []string // "sid cfg svc" returned by alloc and not yet confirmed
 	nextOwn uint64   // ids for creations that do not come from alloc
+	flight  []string // scene ids of SpawnScene requests nobody answered yet
+}
+
+func routeOp(h *hx.T) string {
+	switch h.R.Intn(6) {
+	case 0:
+		return "route svcs="
+	case 1:
+		return fmt.Sprintf("route svcs=%d", 1+h.R.Intn(3))
+	case 2:
+		return fmt.Sprintf("route svcs=%d,%d", 1+h.R.Intn(3), 1+h.R.Intn(3))
+	}
+	return "route svcs=1,2,3"
 }
 
 var cfgIds = []int{100, 101, 102}
@@ -354,9 +483,12 @@ func (g *gen) oneCase(run0 func(string) string, nops int, malformed bool) {
 		return obs
 	}
 	h := g.h
-	g.live, g.ended, g.pending = nil, nil, nil
+	g.live, g.ended, g.pending, g.flight = nil, nil, nil, nil
 	g.nextOwn = 1000 + uint64(h.R.Intn(5))*1000
 	run("reset")
+	if h.R.Intn(4) != 0 { // else: no scene service is routable (every spawn fails at once)
+		run(routeOp(h))
+	}
 	// most cases start with some working services
 	for k := 1; k <= 3; k++ {
 		if h.R.Intn(5) != 0 {
@@ -366,7 +498,40 @@ func (g *gen) oneCase(run0 func(string) string, nops int, malformed bool) {
 	for i := 0; i < nops; i++ {
 		var obs string
 		switch c := h.R.Intn(100); {
-		case c < 13: // allocation (placement decision)
+		case c < 6: // the keeper's path: real SpawnScene (allocation + remote request)
+			h.Count("op.spawn")
+			obs = run(fmt.Sprintf("spawn cfg=%d", g.cfg()))
+			f := strings.Split(strings.Fields(obs)[0], ":")
+			switch {
+			case strings.HasPrefix(obs, "r=noroute"):
+				h.Count("reach.spawn.failed-at-once(no-route)")
+			case strings.HasPrefix(obs, "r=false"):
+				h.Count("spawn.no-working-service")
+			case len(f) == 3 && f[2] == "sent":
+				h.Count("reach.spawn.request-sent")
+				g.flight = append(g.flight, f[0][2:])
+			}
+		case c < 11: // the scene service answers an allocation request
+			switch {
+			case len(g.flight) > 0 && h.R.Intn(8) != 0:
+				j := h.R.Intn(len(g.flight))
+				sid := g.flight[j]
+				g.flight = append(g.flight[:j], g.flight[j+1:]...)
+				if h.R.Intn(5) < 3 {
+					h.Count("reach.reply.ok")
+					obs = run("reply sid=" + sid + " res=ok")
+				} else {
+					h.Count("reach.reply.error")
+					obs = run("reply sid=" + sid + " res=err")
+				}
+			case h.R.Intn(3) == 0:
+				h.Count("op.reply.unknown-request")
+				obs = run(fmt.Sprintf("reply sid=%d res=%s", h.Pick(0, 1, 2, 77), []string{"ok", "err"}[h.R.Intn(2)]))
+			default:
+				h.Count("op.route")
+				obs = run(routeOp(h))
+			}
+		case c < 16: // allocation (placement decision)
 			h.Count("op.alloc")
 			cfg := g.cfg()
 			obs = run(fmt.Sprintf("alloc cfg=%d", cfg))
